@@ -5,6 +5,7 @@
    model and parse_date with the answers of the real time.Parse, asked directly. *)
 From Coq Require Import List Ascii String Bool Arith Lia.
 Require Import GS R2 CL CL2 CL3 HIST.
+Require LR.
 Import ListNotations.
 
 Section C17.
@@ -47,11 +48,19 @@ Section C17.
     exists rest, CL.parse_one V T parse_version parse_date (lines_of x) = @CL.ROk _ e rest /\
                  CL.parse_fuel V T parse_version parse_date (List.length (lines_of x)) rest = Some es.
   Proof. exact (HIST.C17_parse_one_is_first_entry V T parse_version parse_date). Qed.
+
+  (* the source: whatever chunks the io.Reader underneath delivers (one byte per Read, data together with EOF, a buffer
+     fill that ends right after a trailer line ...), the incremental line reader feeds the parser the lines of the
+     whole text - so every statement above holds for every source, and no chunking shortens the list *)
+  Theorem C17_any_source : forall chunks,
+    LR.changelog_chunked V T parse_version parse_date chunks = CL.parse V T parse_version parse_date (List.concat chunks).
+  Proof. exact (LR.changelog_any_source V T parse_version parse_date). Qed.
 End C17.
 Print Assumptions C17_parse_render.
 Print Assumptions C17_parse_render_no_final_newline.
 Print Assumptions C17_never_silently_shortened.
 Print Assumptions C17_fuel_suffices.
+Print Assumptions C17_any_source.
 
 Require CL2ex.
 Example C17_instance :
